@@ -12,7 +12,7 @@ pub static DEF: PropDef = PropDef {
     title: "Every emitted length field is exact; oversize values are refused",
     rule: "In range: G-val control messages and AVPs, encoded into a writer that already holds a prefix of 0..~200 000 octets in half of the cases (incl. messages filled to exactly 65 535 octets) and single AVPs. Oversize: every variable-length kind and opaque hidden AVPs with payloads that make \
 the AVP 1024..~5000 octets (with extra mass on 1024 and 1025), control messages whose body crosses 65 535 octets by 1..2000, and hide() inputs whose original AVP or padded hidden value \
-crosses the 1023-octet limit. Oracle: an independent length walker over the emitted octets - control Length = octets emitted, every AVP length >= 6, the AVPs tile Length-12 exactly, each AVP's extent = \
+crosses the 1023-octet limit; AVPs whose size modulo 2^16 looks legal (65 536 .. 66 600 octets); and in-range values encoded right after a refused encode on the same thread. Oracle: an independent length walker over the emitted octets - control Length = octets emitted, every AVP length >= 6, the AVPs tile Length-12 exactly, each AVP's extent = \
 its length field = 6 + get_length(). For every case either the call panicked or all those equalities hold; in range a panic is itself a violation. Non-trivial = an AVP total > 255 \
 (needs the two high length bits), or within 2 of a limit, or oversize; distinct by hash of the value.",
     assumptions: &["'fails loudly' is observed as a panic caught with catch_unwind"],
@@ -29,7 +29,7 @@ fn parts(t: Tier) -> Vec<Part> {
         Tier::Quick => (360_000, 600_000, 180_000, 9_000, 180_000),
         Tier::Thorough => (3_000_000, 6_000_000, 2_000_000, 80_000, 2_000_000),
     };
-    vec![tape("messages", a, 2500), tape("avps", b, 1200), tape("oversize-avp", c, 300), tape("oversize-msg", d, 400), tape("hide-limits", e, 300)]
+    vec![tape("messages", a, 2500), tape("avps", b, 1200), tape("oversize-avp", c, 300), tape("oversize-msg", d, 400), tape("hide-limits", e, 300), tape("after-refusal", c, 2500)]
 }
 
 /// walk the AVP records of `body`; returns the extents or the reason the walk failed
@@ -202,14 +202,16 @@ pub fn check_msg(m: &SMsg, prefix: &[u8], in_range: bool, family: &'static str, 
 
 fn gen_oversize_avp(t: &mut Tape) -> SAvp {
     // payload length that makes the AVP 1024.. octets
-    let extra = match t.below(6) {
+    let extra = match t.below(7) {
         0 => 1,
         1 => 2,
         2 => 1 + t.below(16),
         3 => 1025 - 1017 + t.below(64),
+        // totals of 65 536 .. 66 600 octets and their multiples: the size modulo 2^16 looks like a legal AVP length
+        4 => 65536 * (1 + t.below(2)) - 1023 + t.below(1100),
         _ => 1 + t.below(4000),
     };
-    let kind = t.below(8);
+    let kind = if extra > 5000 { 4 + t.below(4) * (t.below(2)) } else { t.below(8) };
     match kind {
         0 => SAvp { attr: t.b_u16(), hidden: true, body: Body::Opaque(t.blob_cheap(1017 + extra)) },
         1 => SAvp { attr: [8u16, 21, 22, 23][t.below(4)], hidden: false, body: Body::Text(t.utf8(1017 + extra)) },
@@ -335,9 +337,64 @@ fn check_hide_limits(t: &mut Tape, cx: &mut Cx) -> Res {
     Ok(())
 }
 
+/// a refused (panicking) encode followed, on the same thread, by an encode of a value within the limits: whatever the
+/// refusal left behind must not leak into the next call
+fn check_after_refusal(t: &mut Tape, cx: &mut Cx) -> Res {
+    cx.stage(STAGE_ARMED);
+    let refused = match [0usize, 0, 0, 0, 0, 1, 1, 1, 1, 1, 2, 2, 2, 2, 2, 3][t.below(16)] {
+        0 => {
+            let a = gen_oversize_avp(t);
+            cx.class("refusal: oversize AVP alone");
+            matches!(crate_encode_avp(&a), Caught::Panic(_))
+        }
+        1 => {
+            // a control message that contains one oversize AVP among valid ones
+            let mut m = gen_control_k(t, 4);
+            let a = gen_oversize_avp(t);
+            if let SMsg::Control { avps, .. } = &mut m {
+                let at = 1 + t.below(avps.len().max(1));
+                avps.insert(at.min(avps.len()), a);
+            }
+            cx.class("refusal: message containing an oversize AVP");
+            matches!(crate_encode_msg(&m), Caught::Panic(_))
+        }
+        2 => {
+            let a = gen_oversize_avp(t);
+            cx.class("refusal: hide of an oversize AVP");
+            if a.hidden {
+                false
+            } else {
+                let ca = to_crate(&a);
+                matches!(guard(|| ca.hide(b"secret", &[1, 2, 3, 4].into(), &[], &[0; 16])), Caught::Panic(_))
+            }
+        }
+        _ => {
+            cx.class("refusal: oversize message");
+            matches!(crate_encode_msg(&gen_oversize_msg(t)), Caught::Panic(_))
+        }
+    };
+    cx.stage(STAGE_SETUP);
+    if refused {
+        cx.class("valid encode after a refused one");
+    }
+    match t.below(3) {
+        0 => {
+            let p = gen_prefix(t);
+            check_avp(&gen_avp(t), &p, true, cx)
+        }
+        1 => {
+            let p = gen_prefix(t);
+            let m = gen_control(t);
+            check_msg(&m, &p, true, "after-refusal", cx)
+        }
+        _ => check_hide_limits(t, cx),
+    }
+}
+
 fn run_tape(part: &str, tape: &[u8], cx: &mut Cx) -> Res {
     let mut t = Tape::new(tape);
     match part {
+        "after-refusal" => check_after_refusal(&mut t, cx),
         "messages" => {
             let m = if t.chance(3) { gen_control_big(&mut t) } else { gen_control(&mut t) };
             let p = gen_prefix(&mut t);
